@@ -119,6 +119,14 @@ func New(
 			s.logger.Infof("failed to verify incoming vote: %v", err)
 			return
 		}
+		// the certificate of the proposal has just been verified. advanceView above may have failed to
+		// process it (the certified block could not be fetched at that moment); a replica must not vote
+		// for a block while its high QC, which it reports when the view times out, is behind the
+		// certificate that block carries.
+		if _, err := s.state.UpdateHighQC(proposal.Block.QuorumCert()); err != nil {
+			s.logger.Infof("failed to update the high QC from the proposal: %v", err)
+			return
+		}
 		err := s.voter.OnValidPropose(&proposal)
 		if err != nil {
 			s.logger.Info(err)
